@@ -31,6 +31,7 @@ type c18case struct {
 	via                           string
 	extraAuth                     []string
 	tlsValue                      string // a spelling of the Tls setting other than the recognised "disable"
+	qIssuer                       bool   // Security.QueryTokenIssuer set (never makes a configuration safer)
 }
 
 func keyOfLen(n int, seed byte) *string {
@@ -88,6 +89,9 @@ func (c c18case) config(dir string, idp *fakeIdP) gwConfig {
 	}
 	if c.qkLen > 0 {
 		g.queryKey = strings.Repeat("q", c.qkLen)
+	}
+	if c.qIssuer {
+		g.queryIssuer = "some-issuer"
 	}
 	kt, conf := writeKerberosFiles(dir, []string{"127.0.0.1:1"})
 	switch c.keytab {
@@ -216,6 +220,42 @@ func streamC18(env *runEnv) {
 		for _, oid := range []bool{true, false} {
 			add(func(c *c18case) { c.tokenAuth = ta; c.openid = oid; c.local = !oid; c.tlsDisable = false; c.via = pick(r, []string{"file", "env", "split"}) })
 		}
+	}
+	// the rules do not depend on each other: each unsafe combination together with settings that are
+	// irrelevant to it (another mechanism next to openid, an issuer next to a missing key, a mechanism
+	// other than openid next to an empty host list)
+	for _, other := range []string{"local", "ntlm", "kerberos"} {
+		add(func(c *c18case) {
+			c.tokenAuth = false
+			c.openid = true
+			switch other {
+			case "local":
+				c.local, c.tlsDisable = true, false
+			case "ntlm":
+				c.ntlm = true
+			case "kerberos":
+				c.kerberos, c.keytab = true, "ok"
+			}
+			c.via = pick(r, []string{"file", "env"})
+		})
+	}
+	for _, qk := range []int{0, 32} {
+		add(func(c *c18case) { c.hostsel = "signed"; c.qkLen = qk; c.qIssuer = true })
+	}
+	for _, mech := range []string{"local", "ntlm", "kerberos", "none"} {
+		add(func(c *c18case) {
+			c.hosts = 0
+			c.openid = false
+			c.tokenAuth = false
+			switch mech {
+			case "local":
+				c.local, c.tlsDisable = true, false
+			case "ntlm":
+				c.ntlm = true
+			case "kerberos":
+				c.kerberos, c.keytab = true, "ok"
+			}
+		})
 	}
 	// no hosts under every selection mode
 	for _, hs := range []string{"roundrobin", "signed", "unsigned", "any"} {
